@@ -116,7 +116,7 @@ def build(crates=("abasic-core",), harness_files=None, generated=None, model=Tru
         if not os.path.exists(target):
             raise OverlayError("harness anchor %s/%s does not exist" % (crate, src_rel))
         with open(target, "a") as f:
-            f.write('\n#[cfg(kani)]\n#[path = "%s"]\nmod %s;\n' % (hp, modname))
+            f.write('\n#[cfg(kani)]\n#[path = "%s"]\npub(crate) mod %s;\n' % (hp, modname))
         info["attached"].append((crate, src_rel, modname, hp))
 
     for hpath, crate, src_rel in harness_files or []:
